@@ -9,8 +9,7 @@ package pool
 
 // Ghost attributes of buffers: "released" (handed back to the pool; every buffer a function receives is
 // assumed live on entry) and "pooled" (obtained from the pool rather than allocated).
-//@ attr released initially-false
-//@ attr pooled
+// (declared in /verif/specs/ext/std.spec so that every check sees them)
 
 //@ func GetBuf(size int) (b Buffer)
 //@   trusted
